@@ -245,7 +245,28 @@ def nontrivial(case, labels):
     return 'has-pairs' in labels and bool({'pairs-in->=2-chunks', 'pair-straddles-seam', 'pair-near-pole', 'maxmatch-limited'} & set(labels))
 
 
+def seam_ulp_cases(tier):
+    """round 11 (the C05 sweep of round 9, for spherematch): a first list that rings the sky - so no RA offset avoids the seam and the slices
+    embrace 0..360 - and holds the largest double below 360, for every number of RA cells from 5 to ~420 (thorough: on to 2000 in steps).
+    The cell index of that point, however it is computed, must stay below the number of cells; its partners sit just across the seam."""
+    below = float(np.nextafter(360.0, 0.0))
+    ks = list(range(5, 421)) + (list(range(421, 2000, 7)) if tier == 'thorough' else list(range(421, 1200, 37)))
+    for dec0 in (0.0, 40.0):
+        cosd = math.cos(math.radians(dec0))
+        for k in ks:
+            cs = 360.0 * cosd / (k + 0.5)
+            L = min(0.01, cs / 5.0)
+            for last, first in ((below, 0.25 * L / cosd), (360.0 - 1e-13, 0.0)):
+                ra1 = [last, 60.0, 120.0, 180.0, 240.0, 300.0, first]
+                dec1 = [dec0, dec0, dec0 - 0.2 * L, dec0, dec0 + 0.1 * L, dec0, dec0 + 0.3 * L]
+                ra2 = [first, 0.5 * L / cosd, last, 180.0 + 0.6 * L / cosd, 300.0 + 2.0 * L / cosd]
+                dec2 = [dec0 + 0.3 * L, dec0, dec0 - 0.4 * L, dec0, dec0]
+                yield dict(family='seam-ulp', ra1=ra1, dec1=dec1, ra2=ra2, dec2=dec2, ml=L, chunksize=cs, maxmatch=1 + k % 2)
+
+
 SUBCHECKS = [
+    SubCheck('seam_ulp_sweep', body, kind='exhaustive', cases=seam_ulp_cases, classify=lambda c: ['dec:%d' % c['dec1'][0]], nontrivial=lambda c, l: 'has-pairs' in l,
+             shards=(8, 16), floor=0.0, doc='a first list ringing the sky with a point 1 ulp below RA 360, for every number of RA cells 5..420 (bounded-exhaustive)'),
     SubCheck('grid_edge_probes', probe_body, strategy=probe_case, classify=lambda c: ['ml:%.0e' % c['ml'], 'dec:%d' % c['d0']], nontrivial=lambda c, l: 'has-pairs' in l,
              quick=1200, thorough=40000, shards=(8, 16), floor=0.0,
              doc='pairs 0.995-1.001 match lengths apart placed across the RA chunk edges at the polar edge of declination slices (grid read from the package)'),
